@@ -12,7 +12,7 @@ import numpy as np
 PROP = "C19"
 LEVEL = "exploration"
 VARIANTS = ("omp",)
-CASE_TIMEOUT = 600
+CASE_TIMEOUT = 1200
 RULE = ("kind random: zoo crystal x supercell (with q=-q+G points only, and with conjugate pairs) x primitive matrix x quantum|classical x T in {0, 10, 300, 2000} x cutoff: "
         "covariance A A^T of the sampler (one-hot variates) vs canonical covariance; uu equals it, uu.uu_inv is the projector on the included modes, run_d2f returns the original constants; "
         "kind msd: mean-square displacement matrices on full meshes vs the harness' mode sum, symmetric PSD, Cartesian diagonal = ThermalDisplacements, CIF transform, frequency windows, projection directions; "
